@@ -109,6 +109,15 @@ impl JobState {
         }
     }
 
+    fn is_aborted(&self) -> bool {
+        matches!(
+            self,
+            JobState::Always(JobStateAlways::FinishedAborted)
+                | JobState::Output(JobStateOutput::FinishedAborted)
+                | JobState::Ephemeral(JobStateEphemeral::FinishedAborted)
+        )
+    }
+
     fn is_upstream_failure(&self) -> bool {
         match self {
             JobState::Always(JobStateAlways::FinishedUpstreamFailure) => true,
@@ -211,6 +220,9 @@ pub struct NodeInfo {
     state: JobState,
     history_output: Option<String>,
     last_considered_in_gen: usize,
+    // set when the run was aborted while this job was running
+    // (as opposed to: aborted before the job was ever started)
+    aborted_while_running: bool,
 }
 
 impl NodeInfo {
@@ -419,6 +431,7 @@ impl<T: PPGEvaluatorStrategy> PPGEvaluator<T> {
             state,
             history_output: None,
             last_considered_in_gen: 0,
+            aborted_while_running: false,
         };
         let idx = self.jobs.len() as NodeIndex;
         if self
@@ -808,7 +821,11 @@ impl<T: PPGEvaluatorStrategy> PPGEvaluator<T> {
                     job.state.is_failed()
                         || Self::_job_and_downstreams_are_ephemeral(&self.dag, &self.jobs, idx)
                 );
-                if !job.state.is_upstream_failure() {
+                // the same goes for jobs the abort kept from ever being started.
+                // (the ones that were running when the abort came are like failed jobs)
+                let never_started =
+                    job.state.is_aborted() && !job.aborted_while_running;
+                if !job.state.is_upstream_failure() && !never_started {
                     out.remove(&job.job_id);
                     out.remove(&input_name_key);
                 }
@@ -1599,6 +1616,12 @@ impl<T: PPGEvaluatorStrategy> PPGEvaluator<T> {
                     if !j.state.is_finished() {
                         // an aborted job is not on offer anymore
                         self.jobs_ready_to_run.remove(&j.job_id);
+                        j.aborted_while_running = matches!(
+                            j.state,
+                            JobState::Always(JobStateAlways::Running)
+                                | JobState::Output(JobStateOutput::Running)
+                                | JobState::Ephemeral(JobStateEphemeral::Running(_))
+                        );
                         match j.state {
                             JobState::Ephemeral(_) => {
                                 set_node_state!(
